@@ -150,12 +150,39 @@ def fileindex(u: Unit):
     inj = bool(idx_exprs) and all(f"np.arange({P}.size).reshape({P}.shape)" in e and f"dims={P}.dims" in e and e.endswith(".chunk(1)") for e in idx_exprs)
     u.static("fileindex.injective", inj, fn.qualname,
              f"file indices = arange(size).reshape(shape) on the dims of the parameter array, one chunk per cell: {idx_exprs}",
-             replay=lambda w: {"code": "VIOLATED, DETAIL = False, 'structural obligation on run_pipelines_with_dask (see detail)'", "expect": "one file index per parameter cell"})
+             replay=FILEINDEX_REPLAY)
     u.static("fileindex.passed_per_chunk", len(pos) >= 3 and pos[0] == "_run_pipelines_tuple_to_array" and pos[1] == P + ".chunk(1)", fn.qualname,
              f"apply_ufunc(task, parameters chunked one cell per task, file indices): {pos[:3]}")
     kd = DU.dict_arg(fn.node, next((k.value for k in cs[0].keywords if k.arg == "kwargs"), None)) if len(cs) == 1 else None
     want = {"dimension_names": "dim_names", "processor": "processor", "outputs": "outputs", "readout": "readout", "pipeline_seed": "pipeline_seed"}
     u.static("task.shared_arguments_forwarded", kd is not None and all(kd.get(k) == v for k, v in want.items()), fn.qualname, f"kwargs of apply_ufunc: {kd}")
+
+
+FILEINDEX_REPLAY = lambda w: {"code": """
+import warnings, tempfile, pathlib, numpy as np, verif_probes as VP, pyxel
+from pyxel.exposure import Readout
+from pyxel.observation import Observation, ParameterValues
+from pyxel.outputs import ObservationOutputs
+from pyxel.pipelines import DetectionPipeline, ModelFunction
+warnings.simplefilter('ignore')
+VIOLATED, DETAIL = False, 'every run of a parallel product sweep writes its own files, holding its own bucket'
+root = pathlib.Path(tempfile.mkdtemp())
+pipe = DetectionPipeline(photon_collection=[ModelFunction(func='pyxel.models.photon_collection.illumination', name='illum', arguments={'level': 1.0}),
+                                            ModelFunction(func='verif_probes.writer', name='w', arguments={'pixel_add': 1.0})])
+levels, adds = [10.0, 20.0, 30.0], [1.0, 2.0]
+obs = Observation(parameters=[ParameterValues(key='pipeline.photon_collection.illum.arguments.level', values=levels), ParameterValues(key='pipeline.photon_collection.w.arguments.pixel_add', values=adds)],
+                  readout=Readout(times=[1.0]), with_dask=True, outputs=ObservationOutputs(output_folder=root, save_data_to_file=[{'detector.photon.array': ['npy']}, {'detector.pixel.array': ['npy']}]))
+dt = pyxel.run_mode(mode=obs, detector=VP.detector(), pipeline=pipe, with_inherited_coords=True)
+dt = dt.compute() if hasattr(dt, 'compute') else dt
+files = sorted(p for p in root.rglob('*.npy'))
+by_name = {}
+for f in files:
+    by_name.setdefault(f.name.split('_')[1], []).append(f)
+want_photon = sorted(levels * len(adds)); want_pixel = sorted(adds * len(levels))
+got_photon = sorted(float(np.load(f).ravel()[0]) for f in by_name.get('photon', [])); got_pixel = sorted(float(np.load(f).ravel()[0]) for f in by_name.get('pixel', []))
+if len(by_name.get('photon', [])) != 6 or len(by_name.get('pixel', [])) != 6 or got_photon != want_photon or got_pixel != want_pixel:
+    VIOLATED, DETAIL = True, f'3 x 2 sweep: {len(by_name.get("photon", []))} photon files holding {got_photon} (expected {want_photon}); {len(by_name.get("pixel", []))} pixel files holding {got_pixel}'
+""", "expect": "a parallel product sweep over two parameters writes one file per run and bucket, each holding that run's bucket"}
 
 
 @unit("C07", "islands")
